@@ -16,9 +16,10 @@
                    and the thread ends (WorkerExit).
      dispatch      Concrete::new (oneshot pair) / sender.send / Ok(rx) or Err(DispatchError(f))
      dispatch_blocking   the same closure type handed to the shared AsyncifyPool
-     join          drop(sender) (JoinCall); pool.dispatch(joiner) or thread::spawn(joiner)
-                   (JoinSpawnOnPool / JoinSpawnOnThread); the joiner joins the worker threads in
-                   order (JoinThread) and sends the results; join resumes a worker panic (JoinRet).
+     join          drop(sender) (JoinCall); thread::spawn(joiner) (JoinSpawnOnThread; before the
+                   repair d1f1c64: pool.dispatch(joiner), JoinSpawnOnPool, with the thread as
+                   fallback); the joiner joins the worker threads in order (JoinThread) and sends
+                   the results; join resumes a worker panic (JoinRet).
 
    Granularity: one action per step that another thread can observe.  Steps of one thread with
    nothing observable in between are one action (pop + spawn + detach; body return +
@@ -36,10 +37,12 @@
    executor (a spawned task is polled on its own thread, C04), futures oneshot, the pool's
    internal protocol (C17; here only "a slot is occupied from accept to completion").
 
-   Named deviation (genuine, see notes/C18.md):  JoinerHoldsPoolSlot  - join parks the joiner
-   closure on a thread of the SAME blocking pool the worker runtimes use; a task that needs the
-   pool while no slot is left spins in Driver::push_blocking, the worker never leaves, join never
-   returns.  Permanent iff the limit is 1 (MC_Dispatcher_pool1.cfg expects the liveness failure). *)
+   Repaired deviation, kept as a switch (notes/C18.md, /repo d1f1c64):  JoinerOnPool = TRUE is the
+   pinned behaviour - join parks the joiner closure on a thread of the SAME blocking pool the
+   worker runtimes use (JoinerHoldsPoolSlot); a task that needs the pool while no slot is left
+   spins in Driver::push_blocking, the worker never leaves, join never returns.  Permanent iff the
+   limit is 1: MC_Dispatcher_pool1.cfg (JoinerOnPool = TRUE) must still produce the liveness
+   counterexample.  Every other config has JoinerOnPool = FALSE: the joiner has its own thread. *)
 EXTENDS Integers, Sequences, FiniteSets, TLC
 
 CONSTANTS MaxTasks, MaxWorkers, MaxSenders,
@@ -49,7 +52,8 @@ CONSTANTS MaxTasks, MaxWorkers, MaxSenders,
           PoolChoices,    \* thread_pool_limit values (slots of the shared AsyncifyPool)
           KindChoices,    \* subset of {"async","blocking"}: dispatch / dispatch_blocking
           BodyPanics,     \* BOOLEAN: a task body may panic
-          BodyUsesPool    \* BOOLEAN: an async body may run one blocking op on the shared pool
+          BodyUsesPool,   \* BOOLEAN: an async body may run one blocking op on the shared pool
+          JoinerOnPool    \* BOOLEAN: TRUE = pinned tree (joiner dispatched to the pool), FALSE = repaired
 
 Tasks   == 1..MaxTasks
 Workers == 1..MaxWorkers
@@ -364,17 +368,19 @@ JoinCall ==
   /\ UNCHANGED <<cfg, rx, kind, owner, bop, nstart, wpc, cur, wpanic, spc, scur, sres,
                  jidx, jvia, jres, poolBusy>>
 
-\* self.pool.dispatch(joiner): the joiner occupies a slot of the shared pool ...
+\* pinned tree only - self.pool.dispatch(joiner): the joiner occupies a slot of the shared pool ...
 JoinSpawnOnPool ==
+  /\ JoinerOnPool
   /\ jpc = "called" /\ poolBusy < cfg.pool
   /\ jpc' = "joining" /\ jidx' = 1 /\ jvia' = "pool"
   /\ poolBusy' = poolBusy + 1
   /\ UNCHANGED <<cfg, q, txAlive, rx, st, kind, owner, res, bop, nstart, wpc, cur, wpanic,
                  spc, scur, sres, jres>>
 
-\* ... or, when the pool refuses it, runs on a thread of its own:  std::thread::spawn(f.0)
+\* ... or, when the pool refuses it, runs on a thread of its own:  std::thread::spawn(f.0).
+\* Repaired tree: always  std::thread::spawn(joiner).
 JoinSpawnOnThread ==
-  /\ jpc = "called" /\ poolBusy >= cfg.pool
+  /\ jpc = "called" /\ (~JoinerOnPool \/ poolBusy >= cfg.pool)
   /\ jpc' = "joining" /\ jidx' = 1 /\ jvia' = "thread"
   /\ UNCHANGED <<cfg, q, txAlive, rx, st, kind, owner, res, bop, nstart, wpc, cur, wpanic,
                  spc, scur, sres, jres, poolBusy>>
@@ -522,7 +528,7 @@ ReceiverResolves ==
   \A i \in Tasks : (Accepted(i) /\ (cfg.fault = "none" \/ jpc # "idle" \/ kind[i] = "blocking"))
                       ~> (RecvOutcome(i) # "pending")
 
-\* The named deviation: the joiner sits on a slot of the pool the workers need.
+\* The (repaired) deviation: the joiner sits on a slot of the pool the workers need.
 JoinerHoldsPoolSlot == jpc = "joining" /\ jvia = "pool"
 PoolStarved == \E i \in Tasks : bop[i] = "want" /\ poolBusy >= cfg.pool /\ JoinerHoldsPoolSlot
 =============================================================================
